@@ -60,10 +60,12 @@ theorem fromMITo3d_timeLabelled {n c t : Nat} {X : Arr3 α} (hX : Rect3 n c t X)
     (hl : names.length = c) (tl : List Int) (hll : tl.length = t) (hnd : tl.Nodup) :
     fromMITo3d (⟨i, tm, names, relabelTimes tl (miRows X)⟩ : MI ν α) (some i) (some tm) = .ok X := by
   have hX' := rect_swap hX
-  have hflat : (((⟨i, tm, names, relabelTimes tl (miRows X)⟩ : MI ν α)).rows.map (·.2)).flatten
+  have hflat : (groupRows ((miRows X).map (·.1.1))
+        (((⟨i, tm, names, relabelTimes tl (miRows X)⟩ : MI ν α)).rows.map (·.2))).flatten
       = (X.map (transposeW t)).flatten.flatten := by
-    show ((relabelTimes tl (miRows X)).map (·.2)).flatten = _
-    rw [relabelTimes_vals, miRows_vals, rect_nTime hX hn hc]
+    show (groupRows _ ((relabelTimes tl (miRows X)).map (·.2))).flatten = _
+    rw [relabelTimes_vals, miRows_vals, rect_nTime hX hn hc, miRows_inst hX hn hc,
+      groupRows_canonical hX ht _ (by simp) (nodup_range_int n)]
   have hI : levelVals (⟨i, tm, names, relabelTimes tl (miRows X)⟩ : MI ν α) i
       = .ok ((miRows X).map (·.1.1)) := by
     simp [levelVals, hne, pure, Except.pure, relabelTimes_inst]
@@ -80,9 +82,6 @@ theorem fromMITo3d_timeLabelled {n c t : Nat} {X : Arr3 α} (hX : Rect3 n c t X)
 
 
 
-/-- the entries of column `col` that sit in rows of instance `id` (`_series.xs(id, level=instance)`) -/
-def xsCol {β} (lv : List Int) (id : Int) (col : List β) : List β :=
-  ((lv.zip col).filter (fun q => q.1 == id)).map (·.2)
 
 theorem zipWith_snd_eq_map {β γ δ} (F : γ → δ) (v : List β) (T : List γ) (h : v.length = T.length) :
     List.zipWith (fun _ y => F y) v T = T.map F := by
